@@ -14,6 +14,7 @@ COMMON_ASSUMPTIONS = {
         'value classes (State, Symbol, Variable, Terminal, ...) are values: == is equality of .value with a consistent hash (DESIGN 2.1); checked only on the bounded scope',
         'sets and dicts iterate in arbitrary order (proved for every order); Python ints are mathematical',
         'partial correctness only: termination, recursion depth and memory are not verified',
+        'state naming: StateNamer is modelled as a total injective function from sets (pairs) of states to states of the same sort; this is a first-order (Henkin-model) assumption - a total injection from *all* sets is impossible by cardinality, the program only ever names finitely many sets - and every function proved under it carries a canary obligation (False must not be provable)',
         'extraction from source drops docstrings, annotations, comments; decorators @property/@staticmethod/@classmethod are interpreted',
         'bounded parts say nothing beyond their stated scope and are never counted as proved',
     ],
